@@ -19,6 +19,20 @@ def int64Arg (s : String) : Option Int :=
 def natArg (s : String) : Option Nat :=
   (int64Arg s).bind (fun n => if 0 ≤ n then some n.toNat else none)
 
+/-- seconds from 0001-01-01T00:00:00Z (Go's zero time) to the Unix epoch: the model's `Time` counts
+from the zero time, so that `0` IS the zero time and every time of the years 1..9999 is positive -/
+def epochOffset : Nat := 62135596800
+
+/-- a time on the wire: signed unix seconds of the years 1..9999, `0` = not set / the zero time
+(the epoch itself cannot be written); as a model `Time` -/
+def timeArg (s : String) : Option Nat :=
+  match intArg s with
+  | none => none
+  | some x =>
+    if x == 0 then some 0
+    else if -62135596799 ≤ x ∧ x ≤ 253402300799 then some (x + (epochOffset : Int)).toNat
+    else none
+
 def flagArg (s : String) : Option Bool :=
   if s == "0" then some false else if s == "1" then some true else none
 
@@ -60,7 +74,7 @@ def pStrC : P (Option StrC)
 def pTimeC : P (Option TimeC)
   | "-" :: r => some (none, r)
   | "t" :: b :: a :: r =>
-    match natArg b, natArg a with
+    match timeArg b, timeArg a with
     | some b, some a => some (some ⟨b, a⟩, r)
     | _, _ => none
   | _ => none
@@ -114,7 +128,7 @@ def pPerm : Nat → P Perm
     match ws with
     | "-" :: r => some (.nil, r)
     | "p" :: tm :: atr :: sh :: r =>
-      match natArg tm, hexArg atr, flagArg sh, pIntC r with
+      match timeArg tm, hexArg atr, flagArg sh, pIntC r with
       | some tm, some atr, some sh, some (nv, va :: v :: r) =>
         match flagArg va, hexArg v, pStrC r with
         | some va, some v, some (vm, r) =>
@@ -233,13 +247,13 @@ def S.fresh (s : S) (ref size : String) : Option (Ref × Nat) :=
   | some r, some n => if s.kind r == "" then some (r, n) else none
   | _, _ => none
 
-def dateCutoff : Nat := 1600000000
+def dateCutoff : Nat := 1600000000 + epochOffset
 
 /-- a claim date: positive, before the cutoff, different from the date of every claim the permanode
 already has (so that the date order of its claims is determined); `mayBeLate = false`: not before
 the latest date used so far -/
 def S.dateOK (s : S) (d : String) (pn : Ref) (mayBeLate : Bool) : Option Nat :=
-  match natArg d with
+  match timeArg d with
   | none => none
   | some d =>
     if d == 0 || d ≥ dateCutoff || (!mayBeLate && d < s.lastDate) ||
@@ -251,7 +265,7 @@ def insertByDate (c : Claim) : List Claim → List Claim
   | [] => [c]
   | x :: l => if x.date ≤ c.date then x :: insertByDate c l else c :: x :: l
 
-def showTime (t : Nat) : String := if t == 0 then "none" else toString t
+def showTime (t : Nat) : String := if t == 0 then "none" else toString ((t : Int) - (epochOffset : Int))
 
 def showRefs (l : List Ref) : String :=
   if l.isEmpty then "-" else ",".intercalate (l.map toAsciiString)
@@ -328,7 +342,7 @@ def step (s : S) (ws : List String) : S × String :=
        if c.length != n then (s, "refmismatch") else (s.addBlob r "" n "bytes", "ok")
      | _, _ => (s, "bad-op"))
   | ["file", ref, size, name, whole, mtime, mime] =>
-    (match s.fresh ref size, hexArg name, refWord whole, natArg mtime, hexArg mime with
+    (match s.fresh ref size, hexArg name, refWord whole, timeArg mtime, hexArg mime with
      | some (r, n), some nm, some wr, some mt, some mi =>
        if s.kind wr != "bytes" then (s, "bad-op") else
        let s1 := s.addBlob r "file" n "file"
@@ -351,7 +365,7 @@ def step (s : S) (ws : List String) : S × String :=
      | some p =>
        if s.kind p != "pn" then (s, "bad-op") else
        if t == "none" then ({ s with w := { s.w with ctime := (p, 0) :: s.w.ctime } }, "ok") else
-       match natArg t with
+       match timeArg t with
        | some tt => if tt == 0 then (s, "bad-op") else ({ s with w := { s.w with ctime := (p, tt) :: s.w.ctime } }, "ok")
        | none => (s, "bad-op")
      | none => (s, "bad-op"))
